@@ -310,34 +310,34 @@ theorem debitAll_apply (f : Addr → Int) (l : List (Addr × Int)) (d : Addr) :
 
 /-! ## the shape of the transitions -/
 
-/-- `MinusFromAddress` in closed form: each record is written iff all subtractions up to it
-    stay non-negative -/
+/-- `MinusFromAddress` in closed form: all or nothing -/
 theorem minus_fst (s : St) (v d : Addr) (a : Int) :
     (minusFromAddress s v d a).1 =
-      { s with tot := if s.tot v - a < 0 then s.tot else upd s.tot v (s.tot v - a),
-               vd := if s.tot v - a < 0 ∨ s.vd v d - a < 0 then s.vd
+      { s with tot := if s.tot v - a < 0 ∨ s.vd v d - a < 0 ∨ s.eff d - a < 0 then s.tot
+                      else upd s.tot v (s.tot v - a),
+               vd := if s.tot v - a < 0 ∨ s.vd v d - a < 0 ∨ s.eff d - a < 0 then s.vd
                      else upd2 s.vd v d (s.vd v d - a),
                eff := if s.tot v - a < 0 ∨ s.vd v d - a < 0 ∨ s.eff d - a < 0 then s.eff
                       else upd s.eff d (s.eff d - a) } := by
   unfold minusFromAddress
-  by_cases h1 : s.tot v - a < 0
-  · simp [h1]
-  · by_cases h2 : s.vd v d - a < 0
-    · simp [h1, h2]
-    · by_cases h3 : s.eff d - a < 0
-      · simp [h1, h2, h3]
-      · simp [h1, h2, h3]
+  by_cases h : s.tot v - a < 0 ∨ s.vd v d - a < 0 ∨ s.eff d - a < 0
+  · simp [h]
+  · simp [h]
 
 theorem minus_snd (s : St) (v d : Addr) (a : Int) :
     (minusFromAddress s v d a).2 = true ↔ a ≤ s.tot v ∧ a ≤ s.vd v d ∧ a ≤ s.eff d := by
   unfold minusFromAddress
-  by_cases h1 : s.tot v - a < 0
-  · simp [h1]; omega
-  · by_cases h2 : s.vd v d - a < 0
-    · simp [h1, h2]; omega
-    · by_cases h3 : s.eff d - a < 0
-      · simp [h1, h2, h3]; omega
-      · simp [h1, h2, h3]; omega
+  by_cases h : s.tot v - a < 0 ∨ s.vd v d - a < 0 ∨ s.eff d - a < 0
+  · simp [h]; omega
+  · simp [h]; omega
+
+/-- a failure changes nothing -/
+theorem minus_fail (s : St) (v d : Addr) (a : Int) (h : (minusFromAddress s v d a).2 = false) :
+    (minusFromAddress s v d a).1 = s := by
+  unfold minusFromAddress at h ⊢
+  by_cases hc : s.tot v - a < 0 ∨ s.vd v d - a < 0 ∨ s.eff d - a < 0
+  · simp [hc]
+  · simp [hc] at h
 
 /-- complete success -/
 theorem minus_ok (s : St) (v d : Addr) (a : Int) (h : (minusFromAddress s v d a).2 = true) :
@@ -346,9 +346,7 @@ theorem minus_ok (s : St) (v d : Addr) (a : Int) (h : (minusFromAddress s v d a)
                eff := upd s.eff d (s.eff d - a) } := by
   have h' := (minus_snd s v d a).mp h
   rw [minus_fst]
-  have h1 : ¬ s.tot v - a < 0 := by omega
-  have h2 : ¬ s.vd v d - a < 0 := by omega
-  have h3 : ¬ s.eff d - a < 0 := by omega
-  simp [h1, h2, h3]
+  have hc : ¬ (s.tot v - a < 0 ∨ s.vd v d - a < 0 ∨ s.eff d - a < 0) := by omega
+  simp [hc]
 
 end OLP.Stake
